@@ -127,6 +127,20 @@ CHECKS.update({
         design='DESIGN.md §4 C15', engine='sched'),
 })
 
+CHECKS.update({
+    'C05': dict(
+        technique='exhaustive crash-point and torn-write enumeration of the recorded real save path (in-situ process-death injection with tree-digest conformance check) + fault-sequence enumeration; real recovery path as oracle',
+        text='For every storable data class (4 quick / 10 thorough) x {first computation, forced recomputation over an existing result} the real compute+save path is recorded as a log of '
+             'file-system operations (mkdir, truncating open, every write, rename, unlink, rmdir; rmtree/move decomposed into primitives) - 30-150 operations per scenario including the '
+             'log and run-info writes. The scenario is then re-executed once per crash point: process death immediately before each operation and after every proper prefix of every '
+             'write (all prefixes <= 64 units, else 1, n/2, n-1); after each, a new chain must find either nothing (and recompute) or the complete correct value, the request must '
+             'always recover, and a third chain must load without running. A per-crash-point tree digest must equal the recorded pre-operation digest (catches I/O that bypasses '
+             'the interposer). Fault sequences (run raises at entry / after partial output, wrong type, unserialisable value, generator raising after k items; singles and pairs; '
+             'retry in the same and in a new chain) use the same oracle plus the <key>_error / resumable work-directory clauses.',
+        note='Crash = process death (no power-loss block reordering; the library never syncs). H5Data / FigureData not covered (C-level I/O outside the interposer). Directory outputs carry an attempt-specific file so that leftovers of dead attempts are visible.',
+        design='DESIGN.md §4 C05', engine='fsops+worlds'),
+})
+
 PENDING_REASON = 'check not built yet in this round (planned per DESIGN.md §4; technique applies)'
 
 
@@ -170,6 +184,7 @@ def manifest():
 
 
 ENGINES = [
+    {'name': 'fsops', 'path': 'tcv/fsops.py', 'serves_properties': ['C05', 'C20'], 'kind_free_text': 'file-system operation interposer: op log, in-situ crash injection, torn writes, tree-digest conformance'},
     {'name': 'sched', 'path': 'tcv/sched.py', 'serves_properties': ['C15'], 'kind_free_text': 'cooperative thread scheduler with lock/file interposition and preemption-bounded stateless DFS'},
     {'name': 'worlds', 'path': 'tcv/worlds.py, tcv/families.py', 'serves_properties': ['C01', 'C04'], 'kind_free_text': 'generated pipelines/configs/contexts with provenance terms, invocation log, fault plan'},
     {'name': 'refmodel', 'path': 'tcv/refmodel.py', 'serves_properties': ['C01', 'C04'], 'kind_free_text': 'independent reference semantics: mounts, precedence, edges, terms, frozen 1.4.0 key'},
